@@ -31,7 +31,7 @@ func checkC03(r *Report, known []Finding) {
 		}
 		return fmt.Sprint(len(m) == 2*(re.NumSubexp()+1))
 	}})
-	runE2E(r, known, e2eSpec{prop: "C03", obs: obs, np: 1500, nh: 10, npT: 20000, nhT: 16, nontriv: func(w string) bool { return w != "nil" && strings.Count(w, " ") >= 3 }})
+	runE2E(r, known, e2eSpec{prop: "C03", obs: obs, np: 5000, nh: 12, npT: 24000, nhT: 16, nontriv: func(w string) bool { return w != "nil" && strings.Count(w, " ") >= 3 }})
 	c03EngineTies(r, known, NewRNG(r.Seed))
 	c03SpecValidation(r, NewRNG(r.Seed))
 	replayKnownExamples(r, known, "C03")
@@ -42,7 +42,7 @@ func checkC10(r *Report, known []Finding) {
 		"earlier branch is a prefix of a later one under every strategy template, corpus/mutation/grammar patterns; isolation: Longest on a Copy or on a second Regex of the same pattern leaves " +
 		"the first in leftmost-first mode; non-trivial = a match exists; distinct by pattern"
 	obs := []Obs{obsMatch()[0], obsFind()[0], obsSubmatch()[0], obsFindAll([]int{-1})[0], obsReplace([]string{"<$0>"})[1]}
-	runE2E(r, known, e2eSpec{prop: "C10", obs: obs, longest: true, np: 1200, nh: 8, npT: 15000, nhT: 14, nontriv: func(w string) bool { return w != "nil" && w != "false" }})
+	runE2E(r, known, e2eSpec{prop: "C10", obs: obs, longest: true, np: 4000, nh: 10, npT: 18000, nhT: 14, nontriv: func(w string) bool { return w != "nil" && w != "false" }})
 	// isolation
 	t := r.Tie("Longest() on a Copy / a second value does not change the first")
 	root := NewRNG(r.Seed ^ 0x10)
@@ -86,7 +86,7 @@ func checkC11(r *Report, known []Finding) {
 	r.Rule = "relations between views of one Regex on one haystack (no oracle): Match <=> FindIndex != nil; Find/FindString/group 0 of FindSubmatch = haystack sliced at FindIndex; string/bytes/" +
 		"reader variants agree (valid UTF-8); FindAll(n) = prefix of FindAll(-1) whose head is FindIndex; Count/AllIndex/AppendAllIndex = FindAllIndex; FindAllSubmatchIndex group 0 = FindAllIndex; " +
 		"engine API (IsMatch, FindIndices, FindIndicesAt 0, Find, FindAt 0, FindSubmatch, Count) = top-level API; haystacks up to 64 KiB; non-trivial = a match exists; distinct by (pattern, haystack)"
-	np, nh := 1200, 6
+	np, nh := 2000, 6
 	if r.Tier == "thorough" {
 		np, nh = 15000, 12
 	}
@@ -279,7 +279,7 @@ func checkC12(r *Report, known []Finding) {
 	r.Rule = "configuration lattice (DFA on/off, prefilter on/off, MaxDFAStates 1/2/10/default, DeterminizationLimit 10/1000, MinLiteralLen 1/3, MaxLiterals 1/2/64/256, ASCII optimisation on/off) x " +
 		"patterns from corpus/mutation/grammar x haystacks: Match, FindIndex, FindSubmatchIndex, FindAllIndex under each configuration must equal the default configuration and the NFA-only " +
 		"configuration (DFA and prefilter off); CPU masking is covered by the C18/C16 worker runs; non-trivial = a match exists; distinct by (pattern, config)"
-	np, nh := 500, 6
+	np, nh := 1500, 6
 	if r.Tier == "thorough" {
 		np, nh = 6000, 10
 	}
